@@ -303,6 +303,66 @@ pub fn cmd_io(a: &Args) {
             }
         }
     }
+    // large well-formed files (hundreds to thousands of arguments, hubs with many outgoing attacks, duplicated declarations):
+    // the expected framework is known by construction; the comparison is done here, TLC checks the verdict fields
+    let nbig = a.num("big", 0);
+    if nbig > 0 {
+        let mut rng = StdRng::seed_from_u64(seed ^ 0xb16);
+        for i in 0..nbig {
+            let fmt = if i % 2 == 0 { "iccma" } else { "apx" };
+            let n = rng.gen_range(40..400) * if i % 5 == 4 { 10 } else { 1 };
+            let mut atts: Vec<(usize, usize)> = vec![];
+            // hubs: arguments with many outgoing / incoming attacks
+            for _ in 0..rng.gen_range(1..4) {
+                let h = rng.gen_range(1..=n);
+                for _ in 0..rng.gen_range(30..120) {
+                    let x = rng.gen_range(1..=n);
+                    if rng.gen_bool(0.7) { atts.push((h, x)) } else { atts.push((x, h)) }
+                }
+            }
+            for _ in 0..rng.gen_range(n..3 * n) {
+                atts.push((rng.gen_range(1..=n), rng.gen_range(1..=n)));
+            }
+            let mut t = String::new();
+            if fmt == "iccma" {
+                t.push_str(&format!("p af {}\n", n));
+                for (x, y) in &atts {
+                    t.push_str(&format!("{} {}\n", x, y));
+                }
+            } else {
+                for x in 1..=n {
+                    t.push_str(&format!("arg(l{}).\n", x));
+                    if rng.gen_bool(0.02) {
+                        t.push_str(&format!("arg(l{}).\n", rng.gen_range(1..=x)));   // a repeated declaration changes nothing
+                    }
+                }
+                for (x, y) in &atts {
+                    t.push_str(&format!("att(l{},l{}).\n", x, y));
+                }
+            }
+            let mut want: Vec<(usize, usize)> = atts.clone();
+            want.sort();
+            want.dedup();
+            let r = catch_unwind(AssertUnwindSafe(|| {
+                let (args, got, raw, ids_ok) = if fmt == "iccma" {
+                    let af = Iccma23Reader::default().read(&mut t.as_bytes()).ok()?;
+                    af_json(&af, &|l: &usize| *l)
+                } else {
+                    let af = AspartixReader::default().read(&mut t.as_bytes()).ok()?;
+                    af_json(&af, &|l: &String| apx_label_num(l))
+                };
+                let got: Vec<(usize, usize)> = got.iter().map(|p| (p[0], p[1])).collect();
+                Some((args == (1..=n).collect::<Vec<usize>>(), got == want, raw, ids_ok))
+            }));
+            let (res, args_ok, atts_ok, raw, ids_ok) = match r {
+                Ok(Some((a1, a2, raw, i1))) => ("ok", a1, a2, raw, i1),
+                Ok(None) => ("err", false, false, 0, false),
+                Err(_) => ("panic", false, false, 0, false),
+            };
+            lines.push(json!({"ev": "bigfile", "fmt": fmt, "n": n, "lines": atts.len(), "distinct_attacks": want.len(), "bytes": t.len(),
+                "res": res, "args_ok": args_ok, "atts_ok": atts_ok, "natt_raw": raw, "ids_ok": ids_ok}).to_string());
+        }
+    }
     util::write_lines(&out, lines.into_iter());
 }
 
